@@ -30,54 +30,59 @@ theorem wrap_lo (T : IntTy) (hb : 0 < T.bits) (z : Int) (h1 : z < T.minVal) (h2 
   have := T.wrap_shift hb z (-1) (by unfold InRange; omega)
   rw [this]; omega
 
+theorem exact_in (T : IntTy) (z : Int) (h : T.minVal ≤ z ∧ z ≤ T.maxVal) : exact T z = .ok z := by
+  unfold exact; exact if_pos h
+
+theorem exact_out (T : IntTy) (z : Int) (h : ¬ (T.minVal ≤ z ∧ z ≤ T.maxVal)) : exact T z = .overflow := by
+  unfold exact; exact if_neg h
+
+/-- The three ways a sum / difference of two in-range numbers wraps. -/
+theorem wrap_cases (T : IntTy) (hb : 0 < T.bits) (z : Int) (h1 : T.minVal - T.modulus ≤ z) (h2 : z ≤ T.maxVal + T.modulus) :
+    (z > T.maxVal ∧ T.wrap z = z - T.modulus) ∨ (z < T.minVal ∧ T.wrap z = z + T.modulus) ∨
+      ((T.minVal ≤ z ∧ z ≤ T.maxVal) ∧ T.wrap z = z) := by
+  by_cases a : z > T.maxVal
+  · exact Or.inl ⟨a, wrap_hi T hb z a h2⟩
+  · by_cases b : z < T.minVal
+    · exact Or.inr (Or.inl ⟨b, wrap_lo T hb z b h1⟩)
+    · exact Or.inr (Or.inr ⟨by omega, T.wrap_eq_self hb z (by unfold InRange; omega)⟩)
+
+/-- Closes `(if … then … else …) = .ok z | .overflow` when all conditions are linear facts about the operands: every
+path of the (regenerated) code is followed and decided by `omega`.  Written against the *shape* of the code, not its
+exact comparisons, so that an equivalent rewrite of the source (`y >= 0` for `y > 0`, swapped branches, …) still
+proves, while a non-equivalent one leaves an unprovable path. -/
+macro "close_ite" : tactic => `(tactic|
+  (simp only [decide_eq_true_eq, Bool.or_eq_true, Bool.and_eq_true, Bool.not_eq_true', decide_eq_false_iff_not, ge_iff_le, gt_iff_lt]
+   repeat' split
+   all_goals first | rfl | omega | (exfalso; omega) | (simp only [Res.ok.injEq]; omega)))
+
 theorem safeAdd_exact (T : IntTy) (hb : 0 < T.bits) (x y : Int) (hx : T.InRange x) (hy : T.InRange y) :
     SafeAdd T x y = exact T (x + y) := by
   obtain ⟨b1, b2, b3, _⟩ := bounds T hb
   unfold InRange at hx hy
-  unfold SafeAdd exact IntTy.add InRange
-  by_cases h1 : x + y > T.maxVal
-  · rw [wrap_hi T hb _ h1 (by omega)]
-    have hy0 : y > 0 := by omega
-    have : x + y - T.modulus < x := by omega
-    have hr : ¬ (T.minVal ≤ x + y ∧ x + y ≤ T.maxVal) := by omega
-    simp [hy0, this, hr]
-  · by_cases h2 : x + y < T.minVal
-    · rw [wrap_lo T hb _ h2 (by omega)]
-      have hy0 : ¬ y > 0 := by omega
-      have : x + y + T.modulus > x := by omega
-      have hr : ¬ (T.minVal ≤ x + y ∧ x + y ≤ T.maxVal) := by omega
-      simp [hy0, this, hr]
-    · rw [T.wrap_eq_self hb _ (by unfold InRange; omega)]
-      have hr : (T.minVal ≤ x + y ∧ x + y ≤ T.maxVal) := by omega
-      by_cases hy0 : y > 0
-      · have : ¬ x + y < x := by omega
-        simp [hy0, this, hr]
-      · have : ¬ x + y > x := by omega
-        simp [hy0, this, hr]
+  unfold SafeAdd IntTy.add
+  rcases wrap_cases T hb (x + y) (by omega) (by omega) with ⟨h, e⟩ | ⟨h, e⟩ | ⟨h, e⟩
+  · rw [e, exact_out T _ (by omega)]; close_ite
+  · rw [e, exact_out T _ (by omega)]; close_ite
+  · rw [e, exact_in T _ h]; close_ite
 
 theorem safeSub_exact (T : IntTy) (hb : 0 < T.bits) (x y : Int) (hx : T.InRange x) (hy : T.InRange y) :
     SafeSub T x y = exact T (x - y) := by
   obtain ⟨b1, b2, b3, _⟩ := bounds T hb
   unfold InRange at hx hy
-  unfold SafeSub exact IntTy.sub InRange
-  by_cases h1 : x - y > T.maxVal
-  · rw [wrap_hi T hb _ h1 (by omega)]
-    have hy0 : ¬ y > 0 := by omega
-    have : x - y - T.modulus < x := by omega
-    have hr : ¬ (T.minVal ≤ x - y ∧ x - y ≤ T.maxVal) := by omega
-    simp [hy0, this, hr]
-  · by_cases h2 : x - y < T.minVal
-    · rw [wrap_lo T hb _ h2 (by omega)]
-      have hy0 : y > 0 := by omega
-      have : x - y + T.modulus > x := by omega
-      have hr : ¬ (T.minVal ≤ x - y ∧ x - y ≤ T.maxVal) := by omega
-      simp [hy0, this, hr]
-    · rw [T.wrap_eq_self hb _ (by unfold InRange; omega)]
-      have hr : (T.minVal ≤ x - y ∧ x - y ≤ T.maxVal) := by omega
-      by_cases hy0 : y > 0
-      · have : ¬ x - y > x := by omega
-        simp [hy0, this, hr]
-      · have : ¬ x - y < x := by omega
-        simp [hy0, this, hr]
+  unfold SafeSub IntTy.sub
+  rcases wrap_cases T hb (x - y) (by omega) (by omega) with ⟨h, e⟩ | ⟨h, e⟩ | ⟨h, e⟩
+  · rw [e, exact_out T _ (by omega)]; close_ite
+  · rw [e, exact_out T _ (by omega)]; close_ite
+  · rw [e, exact_in T _ h]; close_ite
+
+theorem exact_ok_iff (T : IntTy) (z r : Int) : exact T z = .ok r ↔ (r = z ∧ T.InRange z) := by
+  unfold exact
+  by_cases h : T.InRange z
+  · simp [h]; exact eq_comm
+  · simp [h]
+
+theorem exact_overflow_iff (T : IntTy) (z : Int) : exact T z = .overflow ↔ ¬ T.InRange z := by
+  unfold exact
+  by_cases h : T.InRange z <;> simp [h]
 
 end Hive.GoInt
